@@ -622,15 +622,10 @@ pub fn check_number_bounds(num: &NumberSchema) -> Result<(), String> {
             // For integer schemas the admissible values are the multiples of lcm(step, 1).
             let scale = 10f64.powi(d.exp as i32);
             let unit = if num.integer {
-                let (a, b) = (d.coef as u64, 10u64.pow(d.exp));
-                let gcd = {
-                    let (mut x, mut y) = (a, b);
-                    while y != 0 {
-                        (x, y) = (y, x % y);
-                    }
-                    x
-                };
-                (a / gcd) as f64 * b as f64
+                // lcm(coef, 10^exp); coef < 2^32, so 10^18 is enough for the gcd (and cannot overflow)
+                let a = d.coef as u64;
+                let gcd = gcd64(a, 10u64.pow(d.exp.min(18)));
+                (a / gcd) as f64 * scale
             } else {
                 d.coef as f64
             };
